@@ -288,6 +288,7 @@ def step (useSpec : Bool) (st : St) (line : String) : St × String :=
       match parseHaving ws with
       | none => (st, "bad-op")
       | some hv => (st, if useSpec then runSpec st q hv else runModel st q hv)
+  | "M" :: _ => (st, "-")
   | _ => (st, "bad-op")
 
 def main (mode : String) : IO Unit := do
